@@ -24,7 +24,15 @@ def _landing(stmts: list[ast.stmt]) -> list[str]:
 
 def _decision_table(ck: Checker, f: Func, lp: ast.For, tvar: str) -> dict[tuple, str] | None:
     """(has node type, child-valid, property-valid) -> landing kind"""
-    leaves = decision_tree(lp.body, alias_filter=lambda st: False)
+    preset: dict[str, bool] = {}
+    # the values of InvalidTypeReason members are string constants: `<verdict>.value is None` is false
+    enum = ck.repo.cls(TYPING, "InvalidTypeReason")
+    members = [st for st in enum.node.body if isinstance(st, ast.Assign)]
+    if members and all(isinstance(st.value, ast.Constant) and isinstance(st.value.value, str) for st in members):
+        for c in ast.walk(lp):
+            if isinstance(c, ast.Call) and dotted(c.func) == "is_valid_child_field_type":
+                preset[k_none(norm(c) + ".value")] = False
+    leaves = decision_tree(lp.body, alias_filter=lambda st: False, resolve=True, preset=preset)
     table: dict[tuple, str] = {}
     for lf in leaves:
         a = lf.assign
@@ -81,16 +89,27 @@ def r_one_landing(ck: Checker) -> None:
     errv = next((norm(st.value.func.value) for st in walk_body(lp.body) if isinstance(st, ast.Expr) and isinstance(st.value, ast.Call)
                  and isinstance(st.value.func, ast.Attribute) and st.value.func.attr == "append"), None)
     idx = fn.body.index(lp)
-    guard = [st for st in fn.body[idx + 1:] if isinstance(st, ast.If) and errv and norm(st.test) == errv and isinstance(st.body[0], ast.Raise)
-             and norm(st.body[0].exc) == f"InvalidFieldAnnotations({errv})"]
     what = "a non-empty error list raises InvalidFieldAnnotations before anything is returned"
-    ok = len(guard) == 1 and fn.body.index(guard[0]) < fn.body.index(rets[0])
+    if errv is None:
+        raise Unsupported("process_node_fields: the error list was not identified", fn)
+    ok = True
+    for lf in decision_tree(fn.body[idx + 1:], sized=(errv,)):
+        nerr = lf.assign.get(f"len({errv})")
+        if nerr is None:
+            ok = ok and lf.outcome == "raise"
+        elif nerr > 0:
+            ok = ok and lf.outcome == "raise" and lf.val() == f"InvalidFieldAnnotations({errv})"
+        else:
+            ok = ok and lf.outcome == "return"
     (ck.holds if ok else ck.violation)("R-ONE-LANDING", f, fn, what, **({} if ok else {"construct": "process_node_fields: error list is not raised"}))
     # caching of the classification per class
     t = ck.repo.func("pyoak.types", "_populate_type_dicts")
     what = "the per-class tables are filled from process_node_fields(cls, ASTNode)"
-    ok = any(isinstance(st, ast.Assign) and norm(st.value) == "process_node_fields(cls, ASTNode)" and isinstance(st.targets[0], ast.Tuple)
-             and [norm(x) for x in st.targets[0].elts] == ["_TYPE_TO_CHILD_FIELDS[cls]", "_TYPE_TO_PROPS[cls]"] for st in t.node.body)
+    from .templates_rules import populate_summary
+    tabs, probs = populate_summary([st for st in t.node.body if isinstance(st, (ast.Assign, ast.AnnAssign))])
+    ok = not probs and tabs["_TYPE_TO_CHILD_FIELDS"].get("cls") == "CH" and tabs["_TYPE_TO_PROPS"].get("cls") == "PR"
+    if not ok and any(isinstance(n, (ast.If, ast.For, ast.While, ast.Try)) for n in t.node.body):
+        raise Unsupported("_populate_type_dicts is not straight-line code", t.node)
     (ck.holds if ok else ck.violation)("R-ONE-LANDING", t, t.node, what, **({} if ok else {"construct": "_populate_type_dicts: tables not filled as (child fields, props) = process_node_fields(cls, ASTNode)"}))
 
 
@@ -135,26 +154,53 @@ def r_normalise(ck: Checker) -> None:
     what = ("every annotation that reaches the classifier was resolved by get_type_hints (nested forward references evaluated, None mapped "
             "to NoneType), whichever way it is spelled")
     bad = None
-    # definitions of the value stored into the result
-    stores = [st for st in lp.body if isinstance(st, ast.Assign) and isinstance(st.targets[0], ast.Subscript)]
-    if len(stores) != 1:
-        raise Unsupported("get_field_types: result store not found", lp)
-    tv = norm(stores[0].value)
-    hints_vars = {norm(st.targets[0]) for st in fn.body if isinstance(st, ast.Assign) and norm(st.value) == f"get_type_hints({fn.args.args[0].arg})"}
-    defs = [st for st in walk_body(lp.body) if isinstance(st, ast.Assign) and norm(st.targets[0]) == tv]
-    for d in defs:
-        v = norm(d.value)
-        ok = any(v in (f"{h}.get({fv}.name)", f"{h}[{fv}.name]") for h in hints_vars) or v in (
-            f"get_type_hints({fn.args.args[0].arg}).get({fv}.name)", f"get_type_hints({fn.args.args[0].arg})[{fv}.name]") \
-            or v.startswith("unwrap_newtype(")
-        if not ok:
-            bad = f"{tv} = {v}"
+    tp = fn.args.args[0].arg
+    hints_vars = {norm(st.targets[0] if isinstance(st, ast.Assign) else st.target) for st in fn.body if isinstance(st, (ast.Assign, ast.AnnAssign))
+                  and st.value is not None and norm(st.value) == f"get_type_hints({tp})"} | {f"get_type_hints({tp})"}
+
+    def prov(e: ast.expr, env: dict[str, set[str]]) -> set[str]:
+        """Where a value comes from: 'hints' (an entry of get_type_hints(type_) for this field), 'none', 'raw' (field.type), 'other'."""
+        if isinstance(e, ast.Name):
+            return env.get(e.id, {"other"})
+        if isinstance(e, ast.Constant) and e.value is None:
+            return {"none"}
+        if isinstance(e, ast.Subscript) and norm(e.value) in hints_vars and norm(e.slice) == f"{fv}.name":
+            return {"hints"}
+        if isinstance(e, ast.Call) and isinstance(e.func, ast.Attribute) and e.func.attr == "get" and norm(e.func.value) in hints_vars \
+                and e.args and norm(e.args[0]) == f"{fv}.name" and (len(e.args) == 1 or isinstance(e.args[1], ast.Constant) and e.args[1].value is None):
+            return {"hints"}
+        if isinstance(e, ast.Call) and dotted(e.func) in ("unwrap_newtype", "cast", "t.cast") and e.args:
+            return prov(e.args[-1], env)
+        if isinstance(e, ast.IfExp):
+            return prov(e.body, env) | prov(e.orelse, env)
+        if isinstance(e, ast.Attribute) and e.attr == "type" and norm(e.value) == fv:
+            return {"raw"}
+        if any(isinstance(n, ast.Attribute) and n.attr == "type" and norm(n.value) == fv for n in ast.walk(e)):
+            return {"raw"}
+        return {"other"}
+
+    leaves = decision_tree(lp.body, max_atoms=10)
+    n_store = 0
+    for lf in leaves:
+        env: dict[str, set[str]] = {}
+        for st in lf.stmts:
+            if isinstance(st, (ast.Assign, ast.AnnAssign)) and st.value is not None:
+                tg = st.targets[0] if isinstance(st, ast.Assign) else st.target
+                if isinstance(tg, ast.Name):
+                    env[tg.id] = prov(st.value, env)
+                elif isinstance(tg, ast.Subscript) and norm(tg.slice) == fv:
+                    n_store += 1
+                    p_ = prov(st.value, env)
+                    if "raw" in p_:
+                        bad = bad or f"the stored type is read from {fv}.type"
+                    elif "other" in p_:
+                        raise Unsupported(f"get_field_types: stored value {norm(st.value)[:50]} has an unrecognised origin", lp)
     raw = [n for n in walk_body(lp.body) if isinstance(n, ast.Attribute) and n.attr == "type" and norm(n.value) == fv]
     if raw:
         bad = bad or f"raw {fv}.type is read"
-    if not defs:
-        bad = "the stored type has no definition"
-    (ck.violation if bad else ck.holds)("R-NORMALISE", f, lp, what, **({"construct": f"get_field_types: {bad} (bypasses get_type_hints)"} if bad else {}))
+    if not n_store and not bad:
+        raise Unsupported("get_field_types: result store not found", lp)
+    (ck.violation if bad else ck.holds)("R-NORMALISE", f, lp, what, **({"construct": f"get_field_types: {bad} (bypasses get_type_hints)"} if bad else {"evaluations": len(leaves)}))
 
 
 def r_newtype(ck: Checker) -> None:
@@ -259,8 +305,19 @@ def r_child_kind(ck: Checker, rule: str = "R-CHILD-KIND") -> None:
     if len(stores) != 1:
         raise Unsupported("child table store not found", lp[0])
     v = norm(stores[0].value)
-    if v == f"FieldTypeInfo(is_tuple({tvar}), {tvar})":
+    sv = stores[0].value
+    canon = None
+    if isinstance(sv, ast.Call) and dotted(sv.func) == "FieldTypeInfo" and not any(isinstance(x, ast.Starred) for x in sv.args):
+        flds = [st.target.id for st in ck.repo.cls(TYPING, "FieldTypeInfo").node.body if isinstance(st, ast.AnnAssign) and isinstance(st.target, ast.Name)]
+        slots: dict[str, str] = dict(zip(flds, (norm(x) for x in sv.args)))
+        for k in sv.keywords:
+            if k.arg:
+                slots[k.arg] = norm(k.value)
+        canon = [slots.get(x) for x in flds]
+    if canon == [f"is_tuple({tvar})", tvar]:
         ck.holds(rule, f, stores[0], what)
+    elif canon is None and "get_type_info" not in v and "is_collection" not in v:
+        raise Unsupported(f"process_node_fields: child field info {v[:60]} is not a FieldTypeInfo construction", stores[0])
     else:
         ck.violation(rule, f, stores[0], what, construct=f"process_node_fields: child field info is {v} (is_collection is an ABC test that node classes can satisfy)")
     g = ck.repo.func(TYPING, "is_tuple")
